@@ -145,7 +145,9 @@ def api_pipeline(O, paths, charges, sd):
         mic = O["mic2"] / 2e4
         atoms = atoms.replicate(np.array(np.ceil(2 * mic / np.diag(atoms.cell)), dtype=int))
     if O["pp"] == "yes":
-        cm.assign_pair_params_to_structure(atoms)
+        # the API's own pair-coefficient assignment (not the helper inside the command-line module)
+        from mofun.rough_uff import assign_pair_coeffs
+        assign_pair_coeffs(atoms, assign_atom_type_labels_from_elements=True)
     found = None
     random.seed(sd)
     np.random.seed(sd)
